@@ -114,6 +114,8 @@ class Builder:
             haspv = any(i.get("pv") and i["of"].get("ref") == ref for m in self.D["mods"].values() for i in m["insts"])
             em = h.ExternalModule(name=ref, port_list=[h.Port(name=p["n"], width=p["w"]) for p in ports if not p.get("late")],
                                   desc="leaf", domain="verif", **({"paramtype": dict} if haspv else {}))
+            if any(p.get("late") for p in ports):
+                _ = dict(em.ports)          # the device has been looked at (used) before it grows a port
             for p in ports:
                 if p.get("late"):
                     em.port_list.append(h.Port(name=p["n"], width=p["w"]))      # a port added to the device after it was made
@@ -239,7 +241,14 @@ class Builder:
             elif i["kind"] == "array":
                 io = h.InstanceArray(of=tgt, n=i["arr"])
             elif i["kind"] == "pair":
-                io = h.Pair(of=tgt)
+                if i.get("ibt"):
+                    # an instance-bundle type of the designer's own (h.InstanceBundleType over one of the design's bundles), as h.Pair is over h.Diff
+                    key = "ibt:" + i["ibt"]
+                    if key not in self.bundles:
+                        self.bundles[key] = h.InstanceBundleType(name=i["ibt"] + "Insts", bundle=self.bundle(i["ibt"]))
+                    io = self.bundles[key](of=tgt)
+                else:
+                    io = h.Pair(of=tgt)
             else:
                 raise ValueError(i["kind"])
             ns[i["n"]] = io
